@@ -328,3 +328,15 @@ mod tests {
         assert_eq!((min, max), (8, 8));
     }
 }
+
+/// Read-only view of the raw opening-book table for the verification harness.
+#[cfg(rustyyato_chess_verif)]
+pub mod verif {
+    pub fn book_table() -> &'static [u16] {
+        &super::lichess_book::BOOK
+    }
+
+    pub fn book_index(moves: super::BookMoves) -> usize {
+        moves.index
+    }
+}
